@@ -1,13 +1,17 @@
 """C10 — target failures and invalid target values surface immediately and unchanged."""
-from harness import runlevel as R, skel as S
+from harness import comp_logger as L, runlevel as R, skel as S
 
-PROPS = "Props/C10.v"
-THEOREMS = ["C10_fault_is_last_call", "C10_exception_absorbing", "C10_exception_only_from_fault", "C10_logger_fault_transparent"]
+PROPS = ["Props/C10.v", "Props/C10src.v"]
+TRANSLATORS = ["logger"]
+THEOREMS = ["C10_value_checks_are_source", "C10_fault_is_last_call", "C10_exception_absorbing", "C10_exception_only_from_fault", "C10_logger_fault_transparent"]
 LEVEL = "proof"
 RULE = ("fault injection into real runs at call index k (initial point, noise test, design, search steps, poll steps, final re-sampling) x fault kinds "
         "(exception, KeyError, NaN, +-inf, complex, vector, None, and under specified noise not-a-pair / SD 0, <0, NaN, inf, None) x noise modes; "
         "each faulted run is compared with the skeleton model (the fault is an oracle outcome) and checked by the monitor; distinct = distinct (spec,k,kind)")
-TRUSTED = ["Coq 8.16.1 kernel + vm_compute", "hand-written models Model/Skeleton.v and Model/Logger.v tied to the code by differential correspondence",
+TRUSTED = ["Coq 8.16.1 kernel + vm_compute",
+           "translate/logger.py (fail-closed translator of FunctionLogger.__call__: the ordered validity tests, their guards and exception classes, the position of "
+           "`func_count += 1`; the try / handler / coercions pinned as text) -> coq/gen/Src_logger.v, validated on every run: the generated tests are run by Coq on every "
+           "(noise mode, returned-value kind) pair and compared with the real FunctionLogger (correspondence:logger_checks_source)", "hand-written models Model/Skeleton.v and Model/Logger.v tied to the code by differential correspondence",
            "the model has no handler around a target call; the tie (fault injection at every phase) is what checks that the code has none either"]
 ASSUMPTIONS = []
 
@@ -60,6 +64,8 @@ def tie(ctx, broken):
         tr = reached[len(reached) // 2][0]
         ctx.sample(dict(spec=tr["spec"], fault=tr["fault"], exc=tr.get("exc"), calls=len(tr["calls"]), func_count=tr["final"]["snap"]["fc"] if "final" in tr else None))
     R.apply_monitor(ctx, out, R.mon_c10)
+    # the validity tests regenerated from the source (Props/C10src.v), evaluated on every value kind in every noise mode
+    L.tie_checks(ctx, broken, "C10")
 
 
 def search(ctx, broken):
